@@ -124,6 +124,7 @@ class _RawReader(io.RawIOBase):
             n = min(n, at - self._p)
         b[:n] = self._d[self._p:self._p + n]
         self._p += n
+        fs._note_bytes(n)
         return n
 
     def close(self):
@@ -165,6 +166,7 @@ class _RawWriter(io.RawIOBase):
             n = min(n, room)
         cur += data[:n]
         fs.raw_written[self._q] = fs.raw_written.get(self._q, 0) + n
+        fs._note_bytes(n)
         return n
 
     def close(self):
@@ -350,6 +352,10 @@ class SimFS:
         self.trace.append((self.nsys, op, self.rel(q), extra))
         if mut:
             self.mutations.append((self.nsys, op, self.rel(q)))
+
+    def _note_bytes(self, n):
+        if self.trace and self.trace[-1][1] in ("read", "write"):
+            self.trace[-1] = self.trace[-1][:3] + (n,)
 
     def _err(self, eno, q):
         raise OSError(eno, os.strerror(eno), q)
